@@ -113,11 +113,54 @@ func spreadQueries(u *Universe) {
 		}
 	}
 	u.Queries = append(u.Queries, box(1.25, 1.25, 1.75, 1.75), box(-2, -2, -1, -1), box(-1, -1, 7, 7), box(3.5, -1, 3.5, 7))
-	for x := -1.0; x <= 6; x += 0.5 {
-		for y := -1.0; y <= 6; y += 0.5 {
+	step := 0.5
+	if quickTier {
+		step = 1.5 // -1, 0.5, 2, 3.5, 5: outside, on borders, inside and between objects
+	}
+	for x := -1.0; x <= 6; x += step {
+		for y := -1.0; y <= 6; y += step {
 			u.QPoints = append(u.QPoints, geom.Point{X: x, Y: y})
 		}
 	}
+	u.QPoints = append(u.QPoints, FarPoints()...)
+}
+
+// NewPointsUniverse is an alphabet of value-typed points only, row by row on
+// the {0..3} x {-1,0,1} grid: leaves of two or three of them are collinear, so
+// that inner entries have degenerate (segment) boxes, for which the two
+// distance bounds of the nearest-neighbour search coincide mathematically.
+func NewPointsUniverse(n, min, max int, dups ...int) *Universe {
+	u := &Universe{Min: min, Max: max, idx: map[geom.Geom]int{}, Dup: make([]bool, n)}
+	for i := 0; i < n; i++ {
+		g := geom.Point{X: float64(i % 4), Y: float64(i/4) - 1}
+		u.Objs = append(u.Objs, g)
+		u.idx[g] = i
+	}
+	for _, d := range dups {
+		u.Dup[d] = true
+	}
+	for x0 := -1; x0 <= 4; x0++ {
+		for x1 := x0; x1 <= 4; x1++ {
+			for y0 := -2; y0 <= 2; y0++ {
+				for y1 := y0; y1 <= 2; y1++ {
+					if (x0+y0+x1+y1)%2 == 0 || x0 == x1 || y0 == y1 {
+						u.Queries = append(u.Queries, box(float64(x0), float64(y0), float64(x1), float64(y1)))
+					}
+				}
+			}
+		}
+	}
+	pstep := 0.5
+	if quickTier {
+		pstep = 1
+	}
+	for x := -1.0; x <= 4; x += pstep {
+		for y := -2.0; y <= 2; y += 0.5 {
+			u.QPoints = append(u.QPoints, geom.Point{X: x, Y: y})
+		}
+	}
+	u.QPoints = append(u.QPoints, FarPoints()...)
+	return u
 }
 
 // NewGridUniverse is a third alphabet for large trees: the 36 points of the
@@ -169,9 +212,22 @@ func GridSeeds() [][]int {
 // 0.1, so that all distances are below 1 (where a squared distance is smaller
 // than the distance itself).
 func NewScaledUniverse(n, min, max int, dups ...int) *Universe {
+	return NewScaledUniverseBy(0.1, n, min, max, dups...)
+}
+
+// NewScaledUniverseBy is the compact alphabet with every coordinate multiplied
+// by f (objects, query boxes and query points alike): 0.1 gives distances below
+// 1, 2^130 areas, distances and squared distances beyond the float32 range, 2^-34 gaps
+// between objects far below a nanometre.
+func NewScaledUniverseBy(f float64, n, min, max int, dups ...int) *Universe {
 	base := NewUniverse(n, min, max, dups...)
 	u := &Universe{Dup: base.Dup, Min: min, Max: max, idx: map[geom.Geom]int{}}
-	sc := func(p geom.Point) geom.Point { return geom.Point{X: p.X / 10, Y: p.Y / 10} }
+	sc := func(p geom.Point) geom.Point {
+		if f == 0.1 {
+			return geom.Point{X: p.X / 10, Y: p.Y / 10}
+		}
+		return geom.Point{X: p.X * f, Y: p.Y * f}
+	}
 	for i, o := range base.Objs {
 		var g geom.Geom
 		switch t := o.(type) {
@@ -186,7 +242,7 @@ func NewScaledUniverse(n, min, max int, dups ...int) *Universe {
 	for _, q := range base.Queries {
 		u.Queries = append(u.Queries, &geom.Bounds{Min: sc(q.Min), Max: sc(q.Max)})
 	}
-	for _, p := range QueryPoints() {
+	for _, p := range qpoints { // (the quick sub-grid in the quick tier)
 		u.QPoints = append(u.QPoints, sc(p))
 	}
 	return u
@@ -305,6 +361,11 @@ type Explorer struct {
 	Seeds [][]int
 	// CheckState is the per-state oracle (C11 or C12).
 	CheckState func(e *Explorer, s *bfs.State)
+	// Drain restricts the transition relation to histories that empty the tree:
+	// Delete is always enabled, Insert only while at most one object is stored
+	// (so that every way of draining a seed tree completely, and the refill
+	// after it, is explored).
+	Drain bool
 }
 
 func (e *Explorer) viol(sym string, s *bfs.State, op int, detail string) {
@@ -333,6 +394,15 @@ func (e *Explorer) Apply(s *bfs.State, op int) (interface{}, bool) {
 		c := st.Counts[op]
 		if !(c == 0 || (c == 1 && e.U.Dup[op])) {
 			return nil, false
+		}
+		if e.Drain {
+			size := 0
+			for _, x := range st.Counts {
+				size += int(x)
+			}
+			if size > 1 {
+				return nil, false
+			}
 		}
 		t := st.T.VerifClone()
 		if p := try(func() { t.Insert(e.U.Objs[op]) }); p != "" {
@@ -585,20 +655,37 @@ func QueryPoints() []geom.Point {
 			o = append(o, geom.Point{X: x, Y: y})
 		}
 	}
+	return append(o, FarPoints()...)
+}
+
+// FarPoints are twelve query points far outside the alphabet with coordinates
+// that are not short binary fractions (a low-discrepancy sequence): the
+// distance bounds of the search are then rounded, not exact.
+func FarPoints() []geom.Point {
+	var o []geom.Point
+	frac := func(v float64) float64 { return v - math.Floor(v) }
+	for k := 0; k < 12; k++ {
+		o = append(o, geom.Point{X: 600*frac(float64(k)*0.6180339887498949+0.1234) - 300, Y: 800*frac(float64(k)*0.7548776662466927+0.4321) - 400})
+	}
 	return o
 }
 
 var qpoints = QueryPoints()
 
+// quickTier coarsens the query grids of the spread and points alphabets too.
+var quickTier bool
+
 // SetQuickPoints restricts the query points to a 7x7 sub-grid that still has
 // points inside, outside, on box borders and between objects.
 func SetQuickPoints() {
+	quickTier = true
 	qpoints = nil
 	for _, x := range []float64{-1, 0, 0.5, 1.5, 2, 3, 4} {
 		for _, y := range []float64{-1, 0, 0.5, 1.5, 2, 3, 4} {
 			qpoints = append(qpoints, geom.Point{X: x, Y: y})
 		}
 	}
+	qpoints = append(qpoints, FarPoints()...)
 }
 
 // NumQueryPoints reports the size of the compact alphabet's query-point set.
